@@ -39,10 +39,13 @@ def bounded_row_structure(tier, seed):
             (P.Unit.Meter(1000), P.Unit.Meter(300))]
     if tier != 'quick':
         plan += [(P.Unit.Yard(3000), P.Unit.Yard(0.2)), (P.Unit.Meter(800), P.Unit.Meter(7))]
-    for rng_q, step_q in plan:
+    looks = [0.0, 15.0, 0.0, -10.0, 0.0, 20.0]       # the requested range is horizontal, whatever the sight line
+    for k, (rng_q, step_q) in enumerate(plan):
         shot = std_shot(P, rng, mv=2900, bc=0.5, table=P.TableG7,
                         winds=[P.Wind(P.Unit.MPH(5), P.Unit.Degree(rng.choice([90, 180, 270])))],
-                        look_deg=0.0)
+                        look_deg=looks[k % len(looks)])
+        if looks[k % len(looks)]:
+            shot.relative_angle = P.Unit.Degree(0.3)
         shot.cant_angle = P.Unit.Degree(rng.choice([0, -20, 15]))
         tr = P.Calculator().fire(shot, rng_q, step_q).trajectory
         R, S = rng_q.raw_value, step_q.raw_value
